@@ -1163,6 +1163,11 @@ func (f *Field) Range(name string, op pql.Token, predicate int64) (*Row, error) 
 		return nil, nil
 	}
 
+	// Every stored value satisfies the condition: all non-null columns.
+	if bsig.spansAllValues(op, predicate) {
+		return view.notNull()
+	}
+
 	baseValue, outOfRange := bsig.baseValue(op, predicate)
 	if outOfRange {
 		return NewRow(), nil
@@ -1539,7 +1544,7 @@ func (b *bsiGroup) baseValue(op pql.Token, value int64) (baseValue int64, outOfR
 	if op == pql.GT || op == pql.GTE {
 		if value > max {
 			return baseValue, true
-		} else if value > min {
+		} else if value >= min {
 			baseValue = int64(value - b.Base)
 		}
 	} else if op == pql.LT || op == pql.LTE {
@@ -1557,6 +1562,26 @@ func (b *bsiGroup) baseValue(op pql.Token, value int64) (baseValue int64, outOfR
 		baseValue = int64(value - b.Base)
 	}
 	return baseValue, false
+}
+
+// spansAllValues reports whether "<op> value" holds for every value that can
+// be stored at the current bit depth, in which case the answer is the not-null
+// row (baseValue cannot express that: it would have to change the operator).
+func (b *bsiGroup) spansAllValues(op pql.Token, value int64) bool {
+	min, max := b.bitDepthMin(), b.bitDepthMax()
+	switch op {
+	case pql.LT:
+		return value > max
+	case pql.LTE:
+		return value >= max
+	case pql.GT:
+		return value < min
+	case pql.GTE:
+		return value <= min
+	case pql.NEQ:
+		return value < min || value > max
+	}
+	return false
 }
 
 // baseValueBetween adjusts the min/max value to align with the range for Field.
